@@ -853,7 +853,7 @@ func retriedElsewhere(e *wireEnv, out *wireOutcome, api int16) bool {
 var hostile32 = []int64{-2147483648, -2, -1, 0, 1, 65536, 2147483647, 1<<29 + 1, 1<<30 + 1}
 var hostileVar = []int64{-2147483648, -2, -1, 0, 1, 65536, 2147483647, 1<<29 + 1, 1<<30 + 1, 4294967296, 9223372036854775807}
 
-const lenMaxFields = 96
+const lenMaxFields = 128
 const lenValues = 14 // hostile values + (true-1, true+1, rest+1)
 
 // (x 2: the mutated frame delivered whole, or only up to just past the mutated
@@ -936,6 +936,36 @@ func lenfuzzScenario(s *Sim, params map[string]string) {
 				}
 			}
 		}
+		// ... and the words inside opaque BYTES fields that read as lengths or
+		// counts of a nested encoding (consumer-protocol subscriptions and
+		// assignments): every big-endian int32, then int16, whose value lies
+		// between 0 and the length of the blob
+		for _, f := range fields {
+			if (f.Kind != "bytes32" && f.Kind != "compact-bytes") || f.Value < 4 {
+				continue
+			}
+			start, n := f.Off+f.Size, int(f.Value)
+			if start+n > len(frame) {
+				continue
+			}
+			blob := frame[start : start+n]
+			cnt := 0
+			for o := 0; o+4 <= n && cnt < 10; o++ {
+				if v := int32(binary.BigEndian.Uint32(blob[o:])); v >= 0 && int(v) <= n && (v > 0 || o%2 == 0) {
+					all = append(all, lf{LenField: rc.LenField{Off: start + o, Size: 4, Kind: "blob-int32", Path: fmt.Sprintf("%s[%d:%d]", f.Path, o, o+4), Value: int64(v)}})
+					cnt++
+					o += 3
+				}
+			}
+			cnt = 0
+			for o := 0; o+2 <= n && cnt < 4; o++ {
+				if v := int16(binary.BigEndian.Uint16(blob[o:])); v > 0 && int(v) <= n-o-2 {
+					all = append(all, lf{LenField: rc.LenField{Off: start + o, Size: 2, Kind: "blob-int16", Path: fmt.Sprintf("%s[%d:%d]", f.Path, o, o+2), Value: int64(v)}})
+					cnt++
+					o++
+				}
+			}
+		}
 		received = len(frame)
 		if fi >= len(all) {
 			return frame
@@ -996,6 +1026,9 @@ func lenfuzzScenario(s *Sim, params map[string]string) {
 		// batch-length and message-size precede the checksum and are not covered
 		applied = true
 		received = len(nf)
+		if f.Kind == "blob-int32" || f.Kind == "blob-int16" {
+			s.Count("fault:corrupt-length-inside-blob")
+		}
 		desc = fmt.Sprintf("case %d: %s v%d response, field %s (%s at byte %d, true value %d) set to %d", idx, k.name, r.Hdr.APIVersion, f.Path, f.Kind, f.Off, f.Value, val)
 		s.Count("fault:corrupt-length")
 		if cutAfterField && f.Off != 0 {
